@@ -997,4 +997,3 @@ End Text.
 Theorem pil_grammar_shape : forall f text p toks,
   parse_string_fuel pil_grammar f text = POk p toks -> forallb line_okb toks = true.
 Proof. intros f text p toks H. exact (sh_document _ _ _ _ _ _ H). Qed.
-Print Assumptions pil_grammar_shape.
